@@ -197,18 +197,24 @@ def iter_elem(p):
     return frozenset(out)
 
 
-def bind_target(target, p, env: Env):
+def bind_target(target, p, env: Env, strong=False):
+    """strong: the binding replaces what the name held (a loop target is
+    bound afresh on every iteration; inside the body it holds an element of
+    this loop's iterable and nothing else)."""
     if isinstance(target, ast.Name):
-        env.set(target.id, p)
+        if strong:
+            env.vars[target.id] = p
+        else:
+            env.set(target.id, p)
     elif isinstance(target, (ast.Tuple, ast.List)):
         for i, e in enumerate(target.elts):
             if isinstance(e, ast.Starred):
-                bind_target(e.value, _flat(p) if isinstance(p, PTuple) else p, env)
+                bind_target(e.value, _flat(p) if isinstance(p, PTuple) else p, env, strong)
                 continue
             if isinstance(p, PTuple):
-                bind_target(e, p[i] if i < len(p) else EMPTY, env)
+                bind_target(e, p[i] if i < len(p) else EMPTY, env, strong)
             else:
-                bind_target(e, frozenset(f"{s}[{i}]" for s in p), env)
+                bind_target(e, frozenset(f"{s}[{i}]" for s in p), env, strong)
 
 
 class Scanner:
@@ -256,7 +262,7 @@ class Scanner:
             return
         if isinstance(s, (ast.For, ast.AsyncFor)):
             self._expr(s.iter, env, func, depth)
-            bind_target(s.target, iter_elem(prov(s.iter, env)), env)
+            bind_target(s.target, iter_elem(prov(s.iter, env)), env, strong=True)
             self._body(s.body, env, func, depth)
             self._body(s.orelse, env, func, depth)
             return
